@@ -33,12 +33,12 @@ type oneShotBody struct{ io.Reader }
 const bodyText = "BODY-0123456789-0123456789-0123456789"
 
 type authNet struct {
-	mu      sync.Mutex
-	replies map[string][]string // host -> queued replies for registry requests
-	fetch   string              // next token fetch result: "TOK-n" or "fail"
-	out     []string            // recorded requests "to=<host>:<sec>[:F]"
-	leaks   []string
-	hostNum map[string]int
+	mu       sync.Mutex
+	replies  map[string][]string // host -> queued replies for registry requests
+	fetch    string              // next token fetch result: "TOK-n" or "fail"
+	out      []string            // recorded requests "to=<host>:<sec>[:F]"
+	leaks    []string
+	hostNum  map[string]int
 	withBody bool
 }
 
